@@ -8,6 +8,20 @@ fn with_flag<D: Dump>(d: &D, flag: bool) -> Out {
     Out::Ok(w)
 }
 
+/// Formats `O(m) [flag] acc`: the value, the fallback flag if any, then (variant token `acc`) whether the crate's own
+/// checked constructor accepts the returned value.
+fn with_acc<D: Dump>(d: &D, flag: Option<bool>, accepted: Option<bool>) -> Out {
+    let mut w = String::new();
+    d.dump(&mut w);
+    if let Some(fl) = flag {
+        fl.dump(&mut w);
+    }
+    if let Some(a) = accepted {
+        a.dump(&mut w);
+    }
+    Out::Ok(w)
+}
+
 /// `canon[i]` = first position whose conditional has the same numbers (bit for bit) as entry `i`.
 fn canon_of(sc: &[V], w: usize) -> Vec<usize> {
     let rows: Vec<String> = sc
@@ -39,7 +53,9 @@ fn shared_out<D: Dump>(r1: Option<D>, r0: Option<D>, flag: Option<bool>) -> Out 
 }
 
 // mbr / deduce / deduce_with / inverse over a 1-D antecedent domain X (n) and consequent Y (m)
-fn op_cond(op: &str, f: char, st: &str, shared: bool, ints: &[i64], sc: &[V]) -> Out {
+// variant token `acc` (not together with `shared`): one more flag at the end of an `ok` answer -- `deduce` / `deduce_with`:
+// `Opinion::try_new` accepts (clones of) the returned values; `inverse`: `Simplex::try_new` accepts EVERY inverted conditional
+fn op_cond(op: &str, f: char, st: &str, shared: bool, acc: bool, ints: &[i64], sc: &[V]) -> Out {
     need!(ints.len() == 2);
     let Some(&[n]) = us(&ints[..1], 2, 4).as_deref() else { return Out::Unsup };
     let Some(&[m]) = us(&ints[1..], 2, 3).as_deref() else { return Out::Unsup };
@@ -53,6 +69,8 @@ fn op_cond(op: &str, f: char, st: &str, shared: bool, ints: &[i64], sc: &[V]) ->
     need!(sc.len() == expected);
     need!(st == "o" || st == "r");
     need!(!shared || op == "deduce" || op == "deduce_with");
+    need!(!(shared && acc));
+    need!(!acc || op != "mbr");
     macro_rules! body {
         ($F:ident $n:tt $m:tt) => {{
             type T = c1!($F, X, $n, V);
@@ -92,7 +110,10 @@ fn op_cond(op: &str, f: char, st: &str, shared: bool, ints: &[i64], sc: &[V]) ->
                         let cr = conds.rt();
                         Deduction::deduce(w.as_ref(), &cr)
                     };
-                    opt(r)
+                    match r {
+                        Some(r) if acc => with_acc(&r, None, Some(acc_o!(U, r.simplex, r.base_rate))),
+                        r => opt(r),
+                    }
                 }
                 "deduce_with" => {
                     let w: Opinion<T, V> = mk_o(&sc[..2 * $n + 1]);
@@ -120,7 +141,7 @@ fn op_cond(op: &str, f: char, st: &str, shared: bool, ints: &[i64], sc: &[V]) ->
                         let cr = conds.rt();
                         Deduction::deduce_with(w.as_ref(), &cr, fb)
                     };
-                    with_flag(&r, flag.get())
+                    with_acc(&r, Some(flag.get()), if acc { Some(acc_o!(U, r.simplex, r.base_rate)) } else { None })
                 }
                 _ => {
                     let conds: C = mk_c(&sc[..CL], $m);
@@ -128,11 +149,13 @@ fn op_cond(op: &str, f: char, st: &str, shared: bool, ints: &[i64], sc: &[V]) ->
                     let ay: U = mk_v(&sc[CL + $n..]);
                     if st == "o" {
                         let inv = InverseCondition::inverse(&conds, &ax, &ay);
-                        ok(&inv)
+                        let a = if acc { Some((&inv).into_iter().all(|s| acc_s!(T, s))) } else { None };
+                        with_acc(&inv, None, a)
                     } else {
                         let cr = conds.rt();
                         let inv = InverseCondition::inverse(&cr, &ax, &ay);
-                        ok(&inv)
+                        let a = if acc { Some((&inv).into_iter().all(|s| acc_s!(T, s))) } else { None };
+                        with_acc(&inv, None, a)
                     }
                 }
             }
@@ -142,7 +165,8 @@ fn op_cond(op: &str, f: char, st: &str, shared: bool, ints: &[i64], sc: &[V]) ->
 }
 
 // abduce / abduce_with: opinion on Y (m), conditionals X→Y, base rate on X (n); result on X
-fn op_abduce(op: &str, f: char, st: &str, t3: &str, ints: &[i64], sc: &[V]) -> Out {
+// variant token `acc`: one more flag at the end of an `ok` answer -- `Opinion::try_new` accepts (clones of) the returned values
+fn op_abduce(op: &str, f: char, st: &str, t3: &str, acc: bool, ints: &[i64], sc: &[V]) -> Out {
     need!(ints.len() == 2);
     let Some(&[n]) = us(&ints[..1], 2, 4).as_deref() else { return Out::Unsup };
     let Some(&[m]) = us(&ints[1..], 2, 3).as_deref() else { return Out::Unsup };
@@ -172,14 +196,17 @@ fn op_abduce(op: &str, f: char, st: &str, t3: &str, ints: &[i64], sc: &[V]) -> O
                     'o' => Abduction::abduce_with(&wy, &conds, ax, &ay),
                     _ => Abduction::abduce_with(wy.as_ref(), &conds, ax, &ay),
                 };
-                ok(&r)
+                with_acc(&r, None, if acc { Some(acc_o!(T, r.simplex, r.base_rate)) } else { None })
             } else {
                 let r: Option<Opinion<T, V>> = match mode {
                     's' => Abduction::abduce(&wy.simplex, &conds, ax),
                     'o' => Abduction::abduce(&wy, &conds, ax),
                     _ => Abduction::abduce(wy.as_ref(), &conds, ax),
                 };
-                opt(r)
+                match r {
+                    Some(r) if acc => with_acc(&r, None, Some(acc_o!(T, r.simplex, r.base_rate))),
+                    r => opt(r),
+                }
             }
         }};
     }
@@ -187,8 +214,9 @@ fn op_abduce(op: &str, f: char, st: &str, t3: &str, ints: &[i64], sc: &[V]) -> O
 }
 
 // deduce_with over a 2-D antecedent (M: MArr2, D/N: MArrD2 with roles X,Z), consequent Y (m)
-fn op_deduce2(f: char, st: &str, shared: bool, ints: &[i64], sc: &[V]) -> Out {
+fn op_deduce2(f: char, st: &str, shared: bool, acc: bool, ints: &[i64], sc: &[V]) -> Out {
     let Some(&[n0, n1, m]) = us(ints, 2, 3).as_deref() else { return Out::Unsup };
+    need!(!(shared && acc));
     let k = n0 * n1;
     need!(sc.len() == 2 * k + 1 + k * (m + 1) + m);
     need!(st == "o" || st == "r");
@@ -225,7 +253,7 @@ fn op_deduce2(f: char, st: &str, shared: bool, ints: &[i64], sc: &[V]) -> Out {
                 let cr = conds.rt();
                 Deduction::deduce_with(w.as_ref(), &cr, fb)
             };
-            with_flag(&r, flag.get())
+            with_acc(&r, Some(flag.get()), if acc { Some(acc_o!(U, r.simplex, r.base_rate)) } else { None })
         }};
     }
     chain!(@ [fam f; n23 n0; n23 n1; n23 m;] body [])
@@ -302,7 +330,8 @@ fn op_prod3(f: char, st: &str, ints: &[i64], sc: &[V]) -> Out {
 // merge_cond2: Y|X1 (n1×m), Y|X2 (n2×m) → Y|X1X2.
 // Unlabelled (A and M alike): tables/base rates are plain arrays, the joint domain is MArr2
 // (the only unlabelled instantiation: `MArr2: Product2<&[V;N1], &[V;N2]>`).
-fn op_merge(f: char, st: &str, ints: &[i64], sc: &[V]) -> Out {
+// variant token `acc`: one more flag -- `Simplex::try_new` accepts EVERY cell of the merged table
+fn op_merge(f: char, st: &str, acc: bool, ints: &[i64], sc: &[V]) -> Out {
     let Some(&[n1, n2, m]) = us(ints, 2, 3).as_deref() else { return Out::Unsup };
     need!(sc.len() == (n1 + n2) * (m + 1) + n1 + n2 + m);
     need!(st == "o" || st == "r");
@@ -321,7 +350,8 @@ fn op_merge(f: char, st: &str, ints: &[i64], sc: &[V]) -> Out {
                 let (r1, r2) = (c1.rt(), c2.rt());
                 <$J>::merge_cond2(&r1, &r2, &ax1, &ax2, &ay)
             };
-            ok(&out)
+            let a = if acc { Some((&out).into_iter().all(|s| acc_s!($TY, s))) } else { None };
+            with_acc(&out, None, a)
         }};
     }
     macro_rules! unl {
